@@ -68,6 +68,9 @@ var (
 type rigObj struct {
 	rig *actor.VerifRig
 	p   *probe
+	// coarse: macro steps end only before dispatch-level operations (used by the oracle-only cases that name a
+	// mailbox kind, whose mailbox is not instrumented)
+	coarse bool
 }
 
 func (o *rigObj) FocusObjs() []any { return o.rig.FocusObjs() }
@@ -77,8 +80,10 @@ func (o *rigObj) FocusObjs() []any { return o.rig.FocusObjs() }
 // the handler.
 func (o *rigObj) Boundary(label string) bool {
 	switch label {
-	case "Load:v", "CAS:v", "Store:v", "take", "Call:schedule", "Call:reschedule", "Recv", "Load:next", "Swap:tail":
+	case "Load:v", "CAS:v", "Store:v", "take", "pause", "Call:schedule", "Call:reschedule", "Recv":
 		return true
+	case "Load:next", "Swap:tail":
+		return !o.coarse
 	}
 	return false
 }
@@ -119,6 +124,10 @@ func (o *rigObj) Do(tid int, op string) string {
 			return "turn"
 		}
 		return "idle"
+	case op == "p":
+		// pause: a schedule point of its own, so that the ops after it start when the schedule says so
+		vsched.Point("pause")
+		return "ok"
 	case op == "r":
 		if err := o.rig.PID.Restart(ctx); err != nil {
 			return "err"
@@ -203,7 +212,7 @@ func mk(cfg string, nthreads int) vlib.Obj {
 		return nil
 	}
 	p.armed.Store(true)
-	return &rigObj{rig: rig, p: p}
+	return &rigObj{rig: rig, p: p, coarse: len(f) == 3}
 }
 
 func main() {
